@@ -162,6 +162,11 @@ class Registry:
         return None
 
     def external_attr(self, cls, attr):
+        # method of an external class (e.g. xml Element.findtext): assumed contract named 'Class.method' whose first
+        # parameter is the receiver
+        key = f'{cls}.{attr}'
+        if key in self.ext_contracts:
+            return lambda eng, obj: Builtin('ext:' + key, obj)
         return None
 
     # ---------------------------------------------------------------- default extension points
@@ -198,6 +203,11 @@ class Registry:
             return eng.call_ext_contract(ext, [base] + list(args), kw, line)
         if isinstance(base, str) and all(isinstance(a, (str, int)) for a in args):
             return getattr(base, name)(*args)
+        if name == 'format' and isinstance(base, str) and not kw:
+            # 'literal {}'.format(scalars): a deterministic (uninterpreted) function of the arguments
+            r = eng.template_str('fmt:' + base, list(args))
+            if r is not None:
+                return r
         self._unsup(f'str method {name}', line)
 
     def call_external(self, eng, name, args, kwargs, line):
@@ -276,7 +286,14 @@ class Registry:
         return seqs.sorted_symbolic(eng, args, kw, line)
 
     def filter_symbolic(self, eng, args, kw, line):
-        self._unsup('filter()', line)
+        # filter(None, xs) == [x for x in xs if x] (consumed once by the code under proof: a list is an exact model)
+        if len(args) == 2 and args[0] is None:
+            x, src = ast.Name(id='x!flt', ctx=ast.Load()), ast.Name(id='src!flt', ctx=ast.Load())
+            comp = ast.ListComp(elt=x, generators=[ast.comprehension(target=ast.Name(id='x!flt', ctx=ast.Store()), iter=src,
+                                                                     ifs=[x], is_async=0)])
+            ast.fix_missing_locations(comp)
+            return self.listcomp(eng, comp, Frame(None, 'ttypes', {'src!flt': args[1]}, None, None))
+        self._unsup('filter() with a function', line)
 
     def list_method(self, eng, l, name, args, kw, line):
         from . import seqs
